@@ -22,7 +22,7 @@ use celestia_types::test_utils::{ExtendedHeaderGenerator, unverify};
 use cid::Cid;
 use lumina_node::store::{
     BlockRanges, BlockRangesError, EitherStore, InMemoryStore, RedbStore, SamplingMetadata, Store, StoreError,
-    StoreInsertionError,
+    StoreInsertionError, VerifiedExtendedHeaders,
 };
 use tendermint_proto::Protobuf;
 use verif_harness::*;
@@ -462,10 +462,19 @@ impl Hist {
                         None => return "bad-op".into(),
                     }
                 }
-                if arg(line, "via") == Some("one") && hs.len() == 1 {
-                    self.unit(s.insert(hs.pop().unwrap()).await)
-                } else {
-                    self.unit(s.insert(hs).await)
+                // `via=` selects the `VerifiedExtendedHeaders` constructor the batch goes through (store/utils.rs);
+                // the model ignores it: every constructor must behave like the `Vec` one
+                match arg(line, "via") {
+                    Some("one") if hs.len() == 1 => self.unit(s.insert(hs.pop().unwrap()).await),
+                    // S9: `From<&ExtendedHeader>`, `From<[ExtendedHeader; 1]>`, `TryFrom<&[ExtendedHeader]>`
+                    Some("ref") if hs.len() == 1 => self.unit(s.insert(&hs[0]).await),
+                    Some("array") if hs.len() == 1 => self.unit(s.insert([hs.pop().unwrap()]).await),
+                    Some("slice") => self.unit(s.insert(&hs[..]).await),
+                    // S9: `new_unchecked` under its safety contract only (the caller has verified the range)
+                    Some("unchecked") if VerifiedExtendedHeaders::try_from(hs.clone()).is_ok() => {
+                        self.unit(s.insert(unsafe { VerifiedExtendedHeaders::new_unchecked(hs) }).await)
+                    }
+                    _ => self.unit(s.insert(hs).await),
                 }
             }
             "remove" => self.unit(s.remove_height(arg_u64(line, "h").unwrap_or(0)).await),
@@ -614,6 +623,9 @@ pub struct Gen<'a> {
     info: Vec<Info>,
     rt: tokio::runtime::Runtime,
     keep_ctr: u64,
+    /// S9: rotates the `VerifiedExtendedHeaders` constructor of generated inserts (a counter, not the
+    /// `Rng`, so that the generated histories themselves stay what they were)
+    via_ctr: u64,
 }
 
 pub struct GenCfg {
@@ -639,6 +651,7 @@ impl<'a> Gen<'a> {
             info: vec![],
             rt: tokio::runtime::Builder::new_current_thread().enable_all().build().unwrap(),
             keep_ctr: 0,
+            via_ctr: 0,
         }
     }
 
@@ -679,10 +692,21 @@ impl<'a> Gen<'a> {
     fn emit_insert(&mut self, out: &mut Emitter, ids: &[usize], tag: &str, via_one: bool) {
         let vok = self.h.oracle(ids);
         let mut line = format!("insert ids={} vok={vok}", natl(ids));
-        if via_one {
-            line.push_str(" via=one");
-        }
         let hs: Vec<ExtendedHeader> = ids.iter().filter_map(|i| self.h.pool.get(*i).cloned()).collect();
+        self.via_ctr += 1;
+        let via = if via_one && hs.len() == 1 {
+            ["one", "ref", "array"][(self.via_ctr % 3) as usize]
+        } else {
+            match self.via_ctr % 6 {
+                1 | 4 => "slice",
+                2 if VerifiedExtendedHeaders::try_from(hs.clone()).is_ok() => "unchecked",
+                _ => "",
+            }
+        };
+        if !via.is_empty() {
+            line.push_str(" via=");
+            line.push_str(via);
+        }
         // The stores require validated headers (decoding validates; `verify` does not).  A batch
         // with an unvalidated header that would be ACCEPTED breaks that precondition (the redb
         // store can then not read the header back): keep only every 8th such case, so that the
@@ -1078,6 +1102,201 @@ impl<'a> Gen<'a> {
             _ => out.op(format!("get_range lo={} hi={}", bound(rng), bound(rng)), "q/get_range", true),
         }
     }
+}
+
+// ------------------------------------------------------------------------------------------
+// S10 size-threshold stress: LARGE and THRESHOLD-STRADDLING histories (same op-line protocol)
+// ------------------------------------------------------------------------------------------
+
+/// One big history: a LONG main chain; batches of exactly the listed sizes (63/64/65, 511/512/513 …)
+/// as consecutive new heads separated by one-height gaps; a comb of `ranges` further disjoint
+/// ranges (so the stores hold >= 9 / 17 / 33 / 65 / 129 ranges); sampling-metadata lists of the
+/// listed sizes; merges of the one-height gaps while many ranges are stored; splits by removals in
+/// the middle of a long range; a rejected overlapping batch and a duplicate-hash batch of
+/// threshold size; then `ops` operations of the usual random mix on that large state.
+pub struct BigCfg {
+    pub chain: u64,
+    pub ranges: usize,
+    pub batches: Vec<u64>,
+    pub cids: Vec<usize>,
+    pub ops: usize,
+}
+
+const RANGE_THRESHOLDS: [usize; 12] = [8, 9, 16, 17, 32, 33, 64, 65, 128, 129, 256, 257];
+
+impl<'a> Gen<'a> {
+    fn n_ranges(&self) -> usize {
+        let st = self.stored();
+        let v: &[std::ops::RangeInclusive<u64>] = st.as_ref();
+        v.len()
+    }
+
+    pub fn history_big(&mut self, rng: &mut Rng, cfg: &GenCfg, big: &BigCfg, out: &mut Emitter) {
+        out.op("reset", "reset", false);
+        self.h.reset();
+        self.info.clear();
+        self.steer = InMemoryStore::new();
+
+        // ---- pool: long main chain (pool ids 0..n-1 = heights 1..n), a few forks / siblings / mutants
+        let n = big.chain.max(8);
+        self.gen_line(out, format!("kind=chain n={n}"), "big/gen-chain", vec![], "chain");
+        let top = n as usize - 1;
+        for _ in 0..2 {
+            let from = rng.range(0, n - 1) as usize;
+            let base = self.info[from].path.clone();
+            self.gen_line(out, format!("kind=fork from={from} n={}", rng.range(1, 4)), "gen/fork", base, "fork");
+        }
+        for kind in ["another", "unverify"] {
+            let of = rng.below(n) as usize;
+            let mut base = self.info[of].path.clone();
+            base.pop();
+            self.gen_line(out, format!("kind={kind} of={of}"), if kind == "another" { "gen/another" } else { "gen/unverify" }, base, kind);
+        }
+        out.op("dump", "dump", false);
+
+        // ---- batches of exactly the threshold sizes: new heads separated by one-height gaps
+        let mut pos = 1u64;
+        let mut gaps: Vec<u64> = vec![];
+        for &b in &big.batches {
+            if b == 0 || pos + b > n {
+                break;
+            }
+            let ids = self.slice(top, pos, pos + b - 1);
+            self.emit_insert(out, &ids, &format!("thr/batch-{b}"), false);
+            gaps.push(pos + b);
+            pos += b + 1;
+        }
+
+        // ---- comb: many further disjoint ranges (every insert is a new head with a gap)
+        let (w, g) = if pos + 4 * big.ranges as u64 <= n { (rng.range(1, 2), rng.range(1, 2)) } else { (1, 1) };
+        for _ in 0..big.ranges {
+            let (lo, hi) = (pos, pos + w - 1);
+            if hi > n {
+                break;
+            }
+            let cnt = self.n_ranges() + 1;
+            let tag = if RANGE_THRESHOLDS.contains(&cnt) { format!("thr/ranges-{cnt}") } else { "big/comb-new-head".to_string() };
+            let ids = self.slice(top, lo, hi);
+            self.emit_insert(out, &ids, &tag, w == 1 && rng.bool());
+            pos = hi + 1 + g;
+        }
+        let comb_top = pos;
+
+        // ---- long sampling-metadata CID lists (with repeats), twice on the same height (merge of lists)
+        for &k in &big.cids {
+            let h = self.some_height(rng, true);
+            for round in 0..2 {
+                let cids: Vec<u64> = (0..k).map(|_| rng.below((k as u64 * 3 / 4).max(1)) + round * (k as u64 / 2)).collect();
+                out.op(format!("meta h={h} cids={}", natl(&cids)), &format!("thr/meta-cids-{k}"), true);
+            }
+            out.op(format!("get_meta h={h}"), "big/q", true);
+        }
+
+        // ---- merge the one-height gaps between the threshold batches while many ranges are stored
+        for &gh in &gaps {
+            if gh <= n && self.rt.block_on(self.steer.has_at(gh + 1)) {
+                let ids = self.slice(top, gh, gh);
+                self.emit_insert(out, &ids, "big/merge-fill-gap", rng.bool());
+            }
+        }
+
+        // ---- split the longest range by removals in its middle
+        let longest = {
+            let st = self.stored();
+            let v: &[std::ops::RangeInclusive<u64>] = st.as_ref();
+            v.iter().max_by_key(|r| *r.end() - *r.start()).cloned()
+        };
+        if let Some(r) = longest {
+            let (s, e) = (*r.start(), *r.end());
+            if e - s >= 4 {
+                let k = rng.range(3, 8).min(big.ops as u64);
+                for j in 1..=k {
+                    let h = s + (e - s) * j / (k + 1);
+                    let ok = self.rt.block_on(self.steer.remove_height(h)).is_ok();
+                    out.op(format!("remove h={h}"), if ok { "big/split-remove" } else { "remove/absent" }, true);
+                }
+            }
+        }
+
+        // ---- queries on the large state
+        let u = self.h.universe();
+        for (lo, hi) in [("u".to_string(), "u".to_string()), ("i1".to_string(), format!("i{n}")), (format!("i{}", comb_top / 2), format!("e{comb_top}"))] {
+            out.op(format!("get_range lo={lo} hi={hi}"), "big/q", true);
+        }
+        out.op("head", "big/q", true);
+        out.op(format!("get_by_height h={}", u - 1), "big/q", true);
+
+        // ---- threshold-size batches that must be rejected: overlap, and a repeated hash at a chosen position
+        if let Some(&b) = big.batches.last() {
+            let lo = rng.range(1, b.max(2) - 1);
+            let ids = self.slice(top, lo, (lo + b - 1).min(n));
+            self.emit_insert(out, &ids, &format!("thr/batch-{b}-overlap"), false);
+            let head = self.stored().head().unwrap_or(0);
+            if head + 1 + b <= n {
+                let ids = self.slice(top, head + 1, head + b);
+                self.emit_dup_hash(rng, out, ids);
+            }
+        }
+
+        // ---- the usual random mix on the large state
+        for _ in 0..big.ops {
+            let total = 100 + cfg.remove_w + cfg.query_w + cfg.sample_w;
+            let x = rng.below(total);
+            if x < 100 {
+                self.insert_op(rng, cfg, out);
+            } else if x < 100 + cfg.remove_w {
+                self.remove_op(rng, out);
+            } else if x < 100 + cfg.remove_w + cfg.sample_w {
+                self.sample_op(rng, out);
+            } else {
+                self.query_op(rng, out);
+            }
+        }
+    }
+}
+
+/// S10: the size classes of one run.  Every mutating op dumps both stores over the whole universe of
+/// heights, so cost ~ (mutating ops) x (chain length): the many-range combs use short chains, the
+/// long chains few operations.
+pub fn big_cfgs(rng: &mut Rng, thorough: bool) -> Vec<BigCfg> {
+    let big = |chain, ranges, batches: &[u64], cids: &[usize], ops| BigCfg { chain, ranges, batches: batches.to_vec(), cids: cids.to_vec(), ops };
+    let b512 = 511 + rng.below(3);
+    if thorough {
+        vec![
+            big(150, 66, &[7, 8, 9], &[9, 17, 33], 40),
+            big(330, 130, &[15, 16, 17], &[65], 40),
+            big(700, 258, &[31, 32, 33], &[], 6),
+            big(262, 10, &[63, 64, 65], &[129], 20),
+            big(520, 4, &[127, 128, 129], &[], 6),
+            big(1620, 3, &[511, 512, 513], &[257], 4),
+            big(2300, 3, &[2100 + rng.below(100)], &[], 0),
+        ]
+    } else {
+        vec![
+            big(76, 34, &[], &[9, 17, 33], 15),
+            big(262, 0, &[63, 64, 65], &[65], 4),
+            big(b512 + 5, 0, &[b512], &[], 0),
+        ]
+    }
+}
+
+/// S10: the size-threshold histories of one run (after the regular ones)
+pub fn gen_big(h: &mut Hist, rng: &mut Rng, cfg: &GenCfg, bigs: &[BigCfg], out: &mut Emitter) {
+    if h.cache_from == usize::MAX {
+        h.cache_from = out.len();
+    }
+    let r = guarded(|| {
+        let mut g = Gen::new(h);
+        for b in bigs {
+            g.history_big(rng, cfg, b, out);
+        }
+        String::new()
+    });
+    if r.starts_with("panic") {
+        eprintln!("generator failed: {r}");
+        std::process::exit(3);
+    }
+    h.reset();
 }
 
 pub fn gen_all(h: &mut Hist, rng: &mut Rng, cfg: &GenCfg, out: &mut Emitter) {
